@@ -143,6 +143,9 @@ def call(ex, node, st):
             raise Unsupported(f"method .{f.attr} on {type(recv).__name__} at {ex.where(node)}")
     else:
         target = ex.eval(f, st)
+    from .engine import FuncClosure
+    if isinstance(target, FuncClosure):
+        return ex.call_closure(target, [ex.eval(a, st) for a in node.args], st)
     if isinstance(target, Lam):
         args = [ex.eval(a, st) for a in node.args]
         sub = st.copy()
@@ -736,7 +739,26 @@ def L_unique(ex, st, node, a, *r, **kw):
     return ex.new_array(st, (cnt,), a.dtype, None, "unique")
 
 
+def L_minmax(which):
+    def h(ex, st, node, a, b):
+        f = L_min if which == "min" else L_max
+        if isinstance(a, Arr) or isinstance(b, Arr):
+            arr = a if isinstance(a, Arr) else b
+            if isinstance(a, Arr) and isinstance(b, Arr):
+                ex.same_shape(st, a, b, node)
+            return ex.elementwise(st, arr.shape, "f8", lambda k: f(ex, st, node,
+                                  ex.read(st, a, k, node, check=False) if isinstance(a, Arr) else a,
+                                  ex.read(st, b, k, node, check=False) if isinstance(b, Arr) else b), which)
+        return f(ex, st, node, a, b)
+    return h
+
+
+def L_identity(ex, st, node, a, *r, **kw):
+    return a
+
+
 LIB = {
+    "numpy.datetime64": L_identity, "numpy.minimum": L_minmax("min"), "numpy.maximum": L_minmax("max"),
     "builtins.range": L_range, "numba.prange": L_prange, "builtins.len": L_len, "builtins.abs": L_abs, "builtins.min": L_min,
     "builtins.max": L_max, "builtins.int": L_int, "builtins.float": L_float, "builtins.round": L_round, "builtins.pow": L_pow,
     "numpy.zeros": L_zeros, "numpy.ones": L_ones, "numpy.full": L_full, "numpy.full_like": L_full_like,
